@@ -284,7 +284,7 @@ func checkC10(c *Ctx, r *Report) {
 			allInstrs(s.Fn, false, func(in ssa.Instruction) {
 				if isCallTo(in, fnIsTemporary) {
 					a := asCall(in).Args[0]
-					if ld, ok := a.(*ssa.UnOp); ok && ld.Op == token.MUL && strings.HasSuffix(apOf(ld.X).SelString(), "messageLayer.CompletionCode") {
+					if ld, ok := a.(*ssa.UnOp); ok && ld.Op == token.MUL && strings.HasSuffix(apOf(ld.X).SelString(), fMsg+".CompletionCode") {
 						okArg = true
 					}
 				}
@@ -389,7 +389,7 @@ func checkC10(c *Ctx, r *Report) {
 				}
 				n++
 				ld, isLd := v.(*ssa.UnOp)
-				if !isLd || ld.Op != token.MUL || !strings.HasSuffix(apOf(ld.X).SelString(), "messageLayer.CompletionCode") || !mustPrecede(sc, exch, ld) {
+				if !isLd || ld.Op != token.MUL || !strings.HasSuffix(apOf(ld.X).SelString(), fMsg+".CompletionCode") || !mustPrecede(sc, exch, ld) {
 					good = false
 					why = "returned code is " + apOf(v).String()
 				}
